@@ -65,8 +65,13 @@ def build(ex, spec, policy):
     for b, band in enumerate(spec['bands']):
         if band is None:
             continue
-        A.put_head(ex, st, b)
         refs[b] = set()
+        if band.get('bare'):
+            # a backup killed while creating its band: the directory (and its index directory), no head, nothing in it
+            st.put_dir(A.band_name(b))
+            st.put_dir(A.band_name(b) + '/i')
+            continue
+        A.put_head(ex, st, b)
         for hn, hunk in enumerate(band['hunks']):
             ents = []
             for k, blk in enumerate(hunk):
@@ -83,6 +88,11 @@ def build(ex, spec, policy):
                     ex.env.setdefault('addr_syms', []).append((b, hn, k, j, start, alen))
                 ents.append(A.mk_entry(ex, '/f%d_%d_%d' % (b, hn, k), 'File', tag, addrs=addrs))
             A.put_hunk(ex, st, b, hn, ents)
+        if band.get('empty_last'):
+            # a backup killed inside the write of its next hunk leaves a zero-length file
+            hp = A.hunk_path(b, len(band['hunks']))
+            st.put_dir(hp.rsplit('/', 1)[0])
+            st.put_file(hp, Raw(b''))
         if band['closed']:
             A.put_tail(ex, st, b, len(band['hunks']))
     if spec.get('lock'):
@@ -229,6 +239,10 @@ def check_after(ex, spec, st, before, refs, r, crashed, delete, dry_run, break_l
             problems.append('unreferenced blocks remain after a successful delete: %s' % sorted(left))
         if 'GC_LOCK' in st.nodes:
             problems.append('GC_LOCK left behind after success')
+    if not ok and not newest_incomplete and not (spec.get('lock') and not break_lock):
+        # nothing was injected, nobody else holds the lock and no backup can be in progress: the delete has no reason to refuse
+        problems.append('delete/gc of a healthy archive (whatever earlier interrupted backups left behind) fails: %s'
+                        % (None if r is None else variant_name(ex, r.fields[0])))
     if ok and newest_incomplete:
         problems.append('delete/gc succeeded although the newest band is incomplete')
     if ok and spec.get('lock') and not break_lock:
@@ -249,6 +263,9 @@ def specs(tier):
             # an interrupted version (two hunks, no tail) in the middle of the history: its blocks are referenced too
             {'nblocks': 4, 'bands': [{'closed': True, 'hunks': [[[0]]]}, {'closed': False, 'hunks': [[[1]], [[2]]]}, {'closed': True, 'hunks': [[[0], [3]]]}]},
             {'nblocks': 1, 'bands': []},
+            # leftovers of killed backups in the middle of the history: a bare band directory; an unfinished band whose next hunk is zero-length
+            {'nblocks': 2, 'bands': [{'closed': True, 'hunks': [[[0]]]}, {'bare': True, 'closed': False, 'hunks': []}, {'closed': True, 'hunks': [[[0]]]}]},
+            {'nblocks': 3, 'bands': [{'closed': True, 'hunks': [[[0]]]}, {'closed': False, 'hunks': [[[1]]], 'empty_last': True}, {'closed': True, 'hunks': [[[0]]]}]},
         ]
     else:
         combos = [
@@ -266,6 +283,8 @@ def specs(tier):
             {'nblocks': 4, 'bands': [{'closed': True, 'hunks': [[[0]]]}, {'closed': False, 'hunks': [[[1]], [[2]]]}, {'closed': True, 'hunks': [[[0], [3]]]}]},
             # one entry spread over three blocks, each shared with another version at an offset
             {'nblocks': 3, 'bands': [{'closed': True, 'hunks': [[[0, 1, 2]]]}, {'closed': True, 'hunks': [[[1]], [[2], [0]]]}]},
+            {'nblocks': 2, 'bands': [{'closed': True, 'hunks': [[[0]]]}, {'bare': True, 'closed': False, 'hunks': []}, {'closed': True, 'hunks': [[[0]]]}]},
+            {'nblocks': 3, 'bands': [{'closed': True, 'hunks': [[[0]]]}, {'closed': False, 'hunks': [[[1]]], 'empty_last': True}, {'closed': True, 'hunks': [[[0]]]}]},
         ]
     for c in combos:
         for lock in (False, True):
